@@ -363,6 +363,108 @@ def check_alarms(ctx):
             ctx.ob("C13.P1", f.qualname, order_ok, "S5F6 lists exactly the requested alarms in request order (all for an empty request)" if order_ok else "S5F5 does not answer exactly the requested ids in order", key="s5f5-order", where=f.where)
 
 
+REF_VALUES = {
+    "_get_sv_value": """
+def _get_sv_value(self, status_variable):
+    if status_variable.svid == StatusVariableId.CLOCK.value:
+        return status_variable.value_type(self._get_clock())
+    if status_variable.svid == StatusVariableId.CONTROL_STATE.value:
+        return status_variable.value_type(self._get_control_state_id())
+    if status_variable.svid == StatusVariableId.EVENTS_ENABLED.value:
+        return status_variable.value_type(self.settings.data_items.SV, self._get_events_enabled())
+    if status_variable.svid == StatusVariableId.ALARMS_ENABLED.value:
+        return status_variable.value_type(self.settings.data_items.SV, self._get_alarms_enabled())
+    if status_variable.svid == StatusVariableId.ALARMS_SET.value:
+        return status_variable.value_type(self.settings.data_items.SV, self._get_alarms_set())
+    if status_variable.use_callback:
+        return self.on_sv_value_request(status_variable.id_type(status_variable.svid), status_variable)
+    return status_variable.value_type(status_variable.value)
+""",
+    "_get_ec_value": """
+def _get_ec_value(self, equipment_constant):
+    if equipment_constant.ecid == EquipmentConstantId.ESTABLISH_COMMUNICATIONS_TIMEOUT.value:
+        return equipment_constant.value_type(self.settings.establish_communication_timeout)
+    if equipment_constant.ecid == EquipmentConstantId.TIME_FORMAT.value:
+        return equipment_constant.value_type(self._time_format)
+    if equipment_constant.use_callback:
+        return self.on_ec_value_request(equipment_constant.id_type(equipment_constant.ecid), equipment_constant)
+    return equipment_constant.value_type(equipment_constant.value)
+""",
+    "_set_ec_value": """
+def _set_ec_value(self, equipment_constant, value):
+    if equipment_constant.ecid == EquipmentConstantId.ESTABLISH_COMMUNICATIONS_TIMEOUT.value:
+        self.settings.establish_communication_timeout = int(value)
+    if equipment_constant.ecid == EquipmentConstantId.TIME_FORMAT.value:
+        self._time_format = int(value)
+    if equipment_constant.use_callback:
+        self.on_ec_value_update(equipment_constant.id_type(equipment_constant.ecid), equipment_constant, value)
+    else:
+        equipment_constant.value = value
+""",
+    "_on_s05f03": """
+def _on_s05f03(self, _handler, message):
+    function = self.settings.streams_functions.decode(message)
+    alid = function.ALID.get()
+    if alid not in self._alarms:
+        return self.stream_function(5, 4)(self.settings.data_items.ACKC5.ERROR)
+    self.alarms[alid].enabled = function.ALED.get() == self.settings.data_items.ALED.ENABLE
+    return self.stream_function(5, 4)(self.settings.data_items.ACKC5.ACCEPTED)
+""",
+    "_on_s02f29": """
+def _on_s02f29(self, _handler, message):
+    function = self.settings.streams_functions.decode(message)
+    responses = []
+    if len(function) == 0:
+        for eq_constant in self._equipment_constants.values():
+            responses.append({"ECID": eq_constant.ecid, "ECNAME": eq_constant.name, "ECMIN": eq_constant.min_value if eq_constant.min_value is not None else "",
+                              "ECMAX": eq_constant.max_value if eq_constant.max_value is not None else "", "ECDEF": eq_constant.default_value, "UNITS": eq_constant.unit})
+    else:
+        for ecid in function:
+            if ecid not in self._equipment_constants:
+                responses.append({"ECID": ecid, "ECNAME": "", "ECMIN": "", "ECMAX": "", "ECDEF": "", "UNITS": ""})
+            else:
+                eq_constant = self._equipment_constants[ecid]
+                responses.append({"ECID": eq_constant.ecid, "ECNAME": eq_constant.name, "ECMIN": eq_constant.min_value if eq_constant.min_value is not None else "",
+                                  "ECMAX": eq_constant.max_value if eq_constant.max_value is not None else "", "ECDEF": eq_constant.default_value, "UNITS": eq_constant.unit})
+    return self.stream_function(2, 30)(responses)
+""",
+    "_on_s01f11": """
+def _on_s01f11(self, _handler, message):
+    function = self.settings.streams_functions.decode(message)
+    responses = []
+    if len(function) == 0:
+        for status_variable in self._status_variables.values():
+            responses.append({"SVID": status_variable.svid, "SVNAME": status_variable.name, "UNITS": status_variable.unit})
+    else:
+        for status_variable_id in function:
+            if status_variable_id not in self._status_variables:
+                responses.append({"SVID": status_variable_id, "SVNAME": "", "UNITS": ""})
+            else:
+                status_variable = self._status_variables[status_variable_id]
+                responses.append({"SVID": status_variable.svid, "SVNAME": status_variable.name, "UNITS": status_variable.unit})
+    return self.stream_function(1, 12)(responses)
+""",
+}
+
+
+def check_reference_models(ctx):
+    """The value accessors and the remaining handlers against their reference models (summaries, sa.summary)."""
+    from . import _codec
+
+    repo = ctx.repo
+    keep = {"_get_clock", "_get_control_state_id", "_get_events_enabled", "_get_alarms_enabled", "_get_alarms_set", "_get_sv_value", "_get_ec_value", "_set_ec_value"}
+    for cname, mname, rule, what in (
+        ("StatusDataCollectionCapability", "_get_sv_value", "C13.P4", {"returns": "a status variable answers with its current value: clock, control state, enabled events, enabled/set alarms for the predefined ids, the user's callback when configured, else value_type(stored value)"}),
+        ("EquipmentConstantsCapability", "_get_ec_value", "C13.P4", {"returns": "an equipment constant answers with its current value: the live establish-communications timeout / time format for the predefined ids, the user's callback when configured, else value_type(stored value)"}),
+        ("EquipmentConstantsCapability", "_set_ec_value", "C13.P2", {"stores": "a written constant reaches the live setting (predefined ids) and the constant itself (or the user's update hook)"}),
+        ("AlarmCapability", "_on_s05f03", "C13.P3", {"stores": "S5F3 sets the enabled flag of the named, known alarm from ALED == ENABLE and touches nothing else", "returns": "S5F4 acknowledges a known alarm with ACCEPTED and an unknown one with ERROR"}),
+        ("EquipmentConstantsCapability", "_on_s02f29", "C13.P1", {"returns": "S2F30 names every requested constant with its name, limits ('' when undeclared), default and unit; an unknown id gets empty texts"}),
+        ("StatusDataCollectionCapability", "_on_s01f11", "C13.P1", {"returns": "S1F12 names every requested status variable with its name and unit; an unknown id gets empty texts"}),
+    ):
+        f = repo.method(cname, mname, inherited=False)
+        _codec.agree(ctx, rule, f, REF_VALUES[mname], what, keep=keep, key_prefix=f"model {mname} ")
+
+
 def check_current_values(ctx):
     repo = ctx.repo
     for cname, mname, entry in (("StatusDataCollectionCapability", "_get_sv_value", "status_variable"), ("EquipmentConstantsCapability", "_get_ec_value", "equipment_constant"), ("DataValueCapability", "_get_dv_value", "data_value")):
@@ -382,3 +484,4 @@ def run(ctx):
     check_s02f15(ctx)
     check_alarms(ctx)
     check_current_values(ctx)
+    check_reference_models(ctx)
